@@ -36,6 +36,32 @@ CHECKS = {
             "timelines; an independent Go oracle states the property.",
             "Rocq proof over a Gallina model + extracted-model differential correspondence",
             "the scan-and-truncate loop is modelled as structural recursion (trim); equality with the loop is established by the correspondence only."),
+    "C10": (True,
+            "Theorems for all cue lists and all f>0 (no size bound): Fragment's result is a start-ordered permutation of the per-cue "
+            "pieces; the pieces of a cue tile [s,e) consecutively, are cut only at multiples of f, none strictly contains a multiple "
+            "of f, each carries the original's content; cues containing no multiple are untouched. The model is the transcription of "
+            "the repaired per-cue loop (the loop before the fix commit was convicted by the oracle). Extracted model vs "
+            "Subtitles.Fragment on the exhaustive grids of the property text (with and without spare slice capacity) and random "
+            "ms-granular lists; independent Go oracle (per-cue cutting).",
+            "Rocq proof over a Gallina model + extracted-model differential correspondence",
+            "fuel-bounded cutting loop with a proved sufficiency bound; Order as in C12."),
+    "C11": (True,
+            "Theorems for all cue lists with start<=end (any order, no size bound): Unfragment's result is start-ordered, every result "
+            "cue is an input cue extended to the end of a same-text cue, the set of texts on screen at every instant is unchanged, no two "
+            "same-text cues touch or overlap; ordered lists without touching same-text cues are fixpoints; idempotence. The inverse law "
+            "unfragment(fragment f l) ~ l is NOT proved: it is checked by composing model and implementation on exhaustive grids x f in "
+            "1..5 and random lists, with an independent oracle (partial).",
+            "Rocq proof over a Gallina model + extracted-model differential correspondence; inverse law by correspondence only",
+            "text identity is Item.String() modelled on the structured text (item_text)."),
+    "C13": (True,
+            "Theorems for all cue lists with arbitrary reference graphs (no size bound, cyclic parent links included): after Optimize a "
+            "definition survives iff its identifier is reachable (inductive relation: cue, run, used region, style inheritance); the "
+            "marking function equals that relation (with a fuel-sufficiency argument = termination on cycles); references left resolve "
+            "(wf_refs preserved); cues untouched; empty list untouched; idempotent; RemoveStyling leaves no styling and keeps times, "
+            "text, voices, order. Extracted model vs Optimize/RemoveStyling on random graphs; independent Go reachability oracle.",
+            "Rocq proof over a Gallina model + extracted-model differential correspondence",
+            "pointers are modelled by identifiers under the well-formedness 'every pointer is the map entry for its ID', which the "
+            "generators respect; the write/read-back half is exercised under C07."),
 }
 
 PENDING = "check not built yet in this session (work in progress; see DESIGN.md section 7 for the plan)"
